@@ -107,3 +107,69 @@ func gzvHashHistories(t *testing.T, names []string, tag string) {
 		}
 	}
 }
+
+// Shared ring slots again, but only whole-weight members (Add / Remove): there the real ring is a function of the members
+// and of the order in which the current members were (last) added - a shared slot answers in that order - so it must equal
+// a ring built by adding the current members in that order, and an Add/Remove may only move keys to/from the node concerned.
+// (Weights below 100 on colliding names are the known finding F14 and are kept out of this stand-in.)
+func TestGzvBoundedHashSharedSlotsWhole(t *testing.T) {
+	names := []string{"1", "11", "10.0.0.1", "10.0.0.11", "localhost:1", "localhost:11", "node-a"}
+	probes := make([]string, 600)
+	for i := range probes {
+		probes[i] = fmt.Sprintf("key-%d", i)
+	}
+	for seed := int64(0); seed < 80; seed++ {
+		rnd := rand.New(rand.NewSource(seed))
+		h := NewConsistentHash()
+		var order []string // current members, in the order of their last Add
+		var ops []string
+		for i := 0; i < 12; i++ {
+			n := names[rnd.Intn(len(names))]
+			before := map[string]string{}
+			for _, p := range probes {
+				if v, ok := h.Get(p); ok {
+					before[p] = v.(string)
+				}
+			}
+			var next []string
+			for _, m := range order {
+				if m != n {
+					next = append(next, m)
+				}
+			}
+			if rnd.Intn(5) < 3 {
+				h.Add(n)
+				next = append(next, n)
+				ops = append(ops, "Add "+n)
+			} else {
+				h.Remove(n)
+				ops = append(ops, "Remove "+n)
+			}
+			order = next
+			fresh := NewConsistentHash()
+			for _, m := range order {
+				fresh.Add(m)
+			}
+			for _, p := range probes {
+				v, ok := h.Get(p)
+				fv, fok := fresh.Get(p)
+				if ok != (len(order) > 0) || ok != fok {
+					t.Errorf("GZV-REPRODUCED whole-weight nodes sharing ring slots: ops=%v: Get(%s) ok=%v, a ring built from the members %v answers ok=%v", ops, p, ok, order, fok)
+					return
+				}
+				if !ok {
+					continue
+				}
+				if fv != v {
+					t.Errorf("GZV-REPRODUCED whole-weight nodes sharing ring slots: ops=%v: Get(%s)=%v but a ring built by adding the current members %v in this order answers %v", ops, p, v, order, fv)
+					return
+				}
+				if b, had := before[p]; had && b != v.(string) && b != n && v.(string) != n {
+					t.Errorf("GZV-REPRODUCED whole-weight nodes sharing ring slots: ops=%v: key %s moved from %s to %s although only %s changed", ops, p, b, v, n)
+					return
+				}
+			}
+		}
+	}
+	t.Log("GZV-BOUNDED histories of 12 Add/Remove operations over 7 node names of which three pairs share virtual-node names, 80 seeds, 600 probe keys")
+}
